@@ -160,6 +160,10 @@ class Check:
                 raise AnalysisError(f'{fn}: `if {unparse(node.test, 80)}` switches behaviour at a series length / size of {k}, beyond the lengths '
                                     f'the scenarios explore (<= {self.LENGTH_BOUND}); the {"else" if then_arm else "then"} arm was never analysed', node)
 
+        for node, k, qmax, fn in Interp.quotients.values():
+            if qmax == 0:
+                raise AnalysisError(f'{fn}: `{unparse(node, 80)}` is 0 for every series the scenarios use (it only becomes positive from {k} elements on): '
+                                    'what the code does with a non-zero value was never analysed', node)
         for node, step, blocks, fn in Interp.strides.values():
             if step > 3 and blocks <= 1:
                 raise AnalysisError(f'{fn}: `{unparse(node, 80)}` works through its input in blocks of {step}; no scenario is long enough to reach a second '
